@@ -88,7 +88,8 @@ def tokens(F, p):
     return " ".join(t)
 
 
-ROUND = r"(?:(?:L\+ R\+) (?:A )*(?:N\+ P RC g (?:G\+ PLUS BK|G- (?:TC )?RS) PC|N- RC) )*"
+# (a round that changes nothing the comparison covers is dropped *and rolled back*: its requests may have left marks - compoRemains - outside the comparison)
+ROUND = r"(?:(?:L\+ R\+) (?:A )*(?:N\+ P RC g (?:G\+ PLUS BK|G- (?:TC )?RS) PC|N- RS RC) )*"
 RE_PROCESS = re.compile(r"^BK " + ROUND + r"(?:L- |L\+ R- )(?:C\+ D |C- )CR$")
 RE_INITIAL = re.compile(r"^(?:TC )?Q g (?:G[+-] )?BK " + ROUND + r"(?:L- |L\+ R- )D CR$")
 
